@@ -94,7 +94,7 @@ Definition doc_sites : list site := [
     NotHash;
   (* Expression::Blob fields is a Vec *)
   mkSite "sylt-compiler/src/typechecker.rs" "expression" "fields"
-    "for (key, expr) in fields { let (inner_ret, expr_ty) = self.expression(expr, ctx)?; self.unify_option(*span, ctx, ret, inner_ret)?; self.unify(expr.span(), ctx, expr_ty, fields_and_types[key].1)?; } with_ret(ret, self.unify(*span, ctx, given_blob, blob_ty)?) }"
+    "for (key, expr) in fields { let (inner_ret, expr_ty) = self.expression(expr, ctx)?; ret = self.unify_option(*span, ctx, ret, inner_ret)?; self.unify(expr.span(), ctx, expr_ty, fields_and_types[key].1)?; } with_ret(ret, self.unify(*span, ctx, given_blob, blob_ty)?) }"
     NotHash;
   (* Type::Blob fields is a BTreeMap *)
   mkSite "sylt-compiler/src/typechecker.rs" "inner_bake_type" "fields"
